@@ -77,6 +77,20 @@ def check(ctx: Ctx) -> str:
               f"compile_templates must call compile(source, name, filename, raw=True, defer_init=True); bound as {bound}", ct.loc(cs[0]), detail=bound)
     s = ast.unparse(ct.node)
     ctx.check("filename = ModuleLoader.get_module_filename(name)" in s and "write_file(filename, code)" in s, "compile:filename", "environment:Environment.compile_templates", "module file name", "modules must be stored under ModuleLoader.get_module_filename(name)", ct.loc())
+    # the module text is Python source without a coding cookie, so the importer reads it as
+    # UTF-8: it has to be written as UTF-8 whatever the process locale is
+    opens = [c for c in astq.calls(ct.node) if astq.callee(c) == "open"]
+    ctx.floor("open() calls in compile_templates", len(opens), 1)
+    for c in opens:
+        mode = ast.unparse(c.args[1]) if len(c.args) > 1 else next((ast.unparse(k.value) for k in c.keywords if k.arg == "mode"), "'r'")
+        enc = next((ast.unparse(k.value).strip("'\"").lower().replace("-", "") for k in c.keywords if k.arg == "encoding"), None)
+        binary = "b" in mode
+        ok = binary or enc == "utf8"
+        if binary:
+            wr = [w for w in astq.calls(ct.node) if astq.attr_tail(w) == "write" and w.args]
+            ok = any(isinstance(w.args[0], ast.Call) and astq.attr_tail(w.args[0]) == "encode" and w.args[0].args and ast.unparse(w.args[0].args[0]).strip("'\"").lower().replace("-", "") == "utf8" for w in wr)
+        ctx.check(ok, f"compile:encoding:{mode}", "environment:Environment.compile_templates", f"module file written with mode {mode}, encoding {enc}",
+                  f"compile_templates writes the generated module with open(..., {mode}{'' if enc is None else ', encoding=' + enc}): Python imports the file as UTF-8, so it must be written as UTF-8 bytes (or text with encoding='utf-8'); with the locale's encoding a template containing non-ASCII text fails to compile or load under a non-UTF-8 locale, while the same template loads from source", ct.loc(c))
     gen = repo.func("environment:Environment._generate")
     ctx.check("defer_init=defer_init" in ast.unparse(gen.node) and "optimized=self.optimized" in ast.unparse(gen.node), "generate:passes", "environment:Environment._generate", "options passed on", "_generate must pass defer_init and optimized to the code generator", gen.loc())
     gf = repo.func("loaders:ModuleLoader.get_module_filename")
